@@ -136,7 +136,11 @@ class LimitTables(Space):
 def eval_limit_signal(case):
     from bycycle.utils import limit_signal
     N, fs, t0 = case
+    nan_stamps = isinstance(t0, str)        # 'nan': lost time stamps (NaN) inside the axis; NaN never satisfies start <= t < stop
+    t0 = 0 if nan_stamps else t0
     times = t0 + np.arange(N) / fs
+    if nan_stamps and N >= 3:
+        times[1::3] = np.nan
     sig = np.arange(N) + 100.
     grid = [None] + sorted({t0 + x / 2 / fs for x in range(-1, 2 * N + 2) if t0 + x / 2 / fs >= 0} | {0.0, .5})
     nev, nt = 0, False
@@ -152,7 +156,7 @@ def eval_limit_signal(case):
             return VIOL(dict(sgn, kind='raise', exc=type(e).__name__), 'limit_signal raised %s: %s' % (type(e).__name__, str(e)[:120]),
                         observed={'N': N, 'fs': fs, 'start': start, 'stop': stop}, evals=nev)
         keep = [i for i in range(N) if (start is None or times[i] >= start) and (stop is None or times[i] < stop)]
-        if list(s2) != [sig[i] for i in keep] or list(t2) != [times[i] for i in keep]:
+        if list(s2) != [sig[i] for i in keep] or [repr(float(v)) for v in t2] != [repr(float(times[i])) for i in keep]:
             return VIOL(dict(sgn, kind='samples'), 'limit_signal did not return exactly the samples with start <= t < stop',
                         expected=keep, observed={'N': N, 'fs': fs, 't0': t0, 'start': start, 'stop': stop, 'sig': list(s2)}, evals=nev)
         nt = nt or 0 < len(keep) < N
@@ -241,6 +245,7 @@ def spaces(tier, seed):
     ls = [(N, fs, t0) for N in range(1, 9 if q else 11) for fs in (1, 4, 10) for t0 in (0, 1, 2.5, -1, -2.5)]
     # long / high-rate recordings and absolute time stamps: limit * fs of 1e5 .. 3e9 (relative tolerances become whole samples)
     ls += [(N, fs, t0) for N in (1, 2, 5) for fs in (1000, 30000) for t0 in (100, 119.5, 3600, 86400)]
+    ls += [(N, fs, 'nan') for N in (3, 4, 7) for fs in (1, 4)]
     out.append(ListSpace('limit_signal', ls, eval_limit_signal,
                          describe='every time axis t0 + arange(N)/fs x full (start, stop) grid incl. None'))
     al = S.alphabet(4 if q else 6)
